@@ -148,6 +148,9 @@ def _lane_plan(tier):
     for tc in SB: plan.append(('page', tc, {}))
     for tc in TCS:
         if tc not in ('UTF-16LE', 'UTF-16BE', 'XERCES-XMLCH'): plan.append(('surr', tc, {}))
+    # one illegal unit behind a valid run of every length that matters for the block logic (every transcoder that has illegal units)
+    for tc in TCS:
+        if tc not in ('UTF-16LE', 'UTF-16BE', 'XERCES-XMLCH'): plan.append(('deep', tc, {}))
     return plan
 
 # ------------------------------------------------------------------------------------------------
@@ -336,6 +339,32 @@ def run_doc(case, ex):
             case['enc'], case['bom'], case['declname'], i, a[i:i + 2], b[i:i + 2])
     return True, 'ok'
 
+# stray illegal byte deep inside a document: must give >= 1 error wherever it sits (first block, later blocks, block edges)
+STRAY = {'US-ASCII': ([b'\x80', b'\xe9', b'\xff'], '<?xml version="1.0" encoding="US-ASCII"?>'),
+         'UTF-8': ([b'\xff', b'\xc0\x80', b'\xed\xa0\x80', b'\x80', b'\xf4\x90\x80\x80'], '<?xml version="1.0" encoding="UTF-8"?>'),
+         'UTF-8/nodecl': ([b'\xff', b'\xc0\x80', b'\xed\xa0\x80', b'\x80'], '')}
+def stray_cases(seed):
+    offs = [40, 200, 20000, 60 + seed % 37, 16384 - 4 + seed % 9, 32768 - 4 + seed % 9, 49152 + seed % 1000]
+    out = []
+    for enc, (bads, decl) in sorted(STRAY.items()):
+        for off in offs:
+            for bi, bad in enumerate(bads):
+                for where in ('text', 'attr', 'comment'):
+                    if where != 'text' and (bi + off) % 3: continue
+                    out.append((enc, decl, off, bad, where, ('sax2', 'dom', 'sax1')[(bi + off) % 3]))
+    return out
+
+def build_stray_case(enc, decl, off, bad, where, api):
+    head = decl + {'text': '<a>', 'attr': '<a p="', 'comment': '<a><!--'}[where]
+    tailtxt = {'text': ' tail</a>', 'attr': '">tail</a>', 'comment': ' -->tail</a>'}[where]
+    fill = max(0, off - len(head))
+    filler = ('abcdefg hij\n' * (fill // 12 + 1))[:fill]
+    clean = (head + filler + 'Z' + tailtxt).encode('ascii')
+    data = (head + filler).encode('ascii') + bad + tailtxt.encode('ascii')
+    return {'level': 'doc', 'api': api, 'enc': enc.split('/')[0], 'bom': False, 'declname': enc, 'expect': 'error',
+            'why': 'the %s document contains the illegal byte sequence %s at offset %d (%s)' % (enc, bad.hex().upper(), len(head) + fill, where),
+            'doc_b64': base64.b64encode(data).decode(), 'utf8_b64': base64.b64encode(clean).decode(), 'preview': head + filler[:40] + '...'}
+
 # ------------------------------------------------------------------------------------------------
 # worker
 # ------------------------------------------------------------------------------------------------
@@ -415,6 +444,14 @@ def worker(ctx):
         ok, detail = run_doc(case, exd)
         if not ok: raise PropertyFailure(case, detail)
     if not ONLY or 'doc' in ONLY: hyp_run(ctx, doc_strategy(tables), prop_doc, ctx.budget - nsplit, batches=4, seed_salt=2)
+    if not ONLY or 'doc' in ONLY or 'stray' in ONLY:
+        for i, sc in enumerate(stray_cases(ctx.seed)):
+            if i % ctx.nworkers != ctx.worker: continue
+            case = build_stray_case(*sc)
+            h = xv.sha(['stray', case['doc_b64'], case['api']]); nontriv_local.add(h)
+            st_.note(h, True, ['doc:stray-illegal-byte', 'doc:stray:' + sc[0], 'doc:stray:offset>=16K' if sc[2] >= 16000 else 'doc:stray:offset<16K'])
+            ok, detail = run_doc(case, exd)
+            if not ok: st_.failures.append({'case': case, 'detail': detail})
     st_.extra['distinct_nontrivial'] = st_.extra.get('enumerated_nontrivial', 0) + len(nontriv_local)
     # ---- 4. witnesses of the known findings: still failing on this tree?
     if ctx.worker == 0:
